@@ -126,6 +126,50 @@ def task_pe(ctx, cfg, levels, lname, kind, sa, sb, seed, step=False):
     prove_close(ctx, 'euler_step_equal_in_SI', both_step, xs, sp, config=dict(conf, dt_si=dt_si))
 
 
+def task_held_suarez(ctx, cfg, levels, lname, sa, sb, seed):
+  """Held-Suarez forcing under two scales: SI-equal tendencies for all states.  exp / log / pow / max are atoms; their
+  elementary laws (exp(c+r) = e^c exp(r), log(c e^r) = log c + r, (c e^r)^k = c^k e^(k r), relu(s a) = s relu(a)) normalise
+  the atoms so that the two runs meet in the same symbols."""
+  from dinosaur import held_suarez as hs, primitive_equations as pe, scales
+  u = scales.units
+  T = scale_table(seed)
+  sA, sB = T[sa], T[sb]
+  f = factors(sA, sB)
+  K = len(levels) - 1
+
+  def build(scale):
+    specs = pe.PrimitiveEquationsSpecs.from_si(scale=scale)
+    coords = models.make_coords(dict(cfg, radius=float(specs.radius)), levels)
+    return specs, coords
+  specsA, coordsA = build(sA); specsB, coordsB = build(sB)
+  grid = coordsA.horizontal
+  base, zm = models.admissible_masks(grid)
+  tref_si = np.linspace(230.0, 290.0, K)
+  mk = lambda specs, coords: hs.HeldSuarezForcing(coords, specs, np.asarray(specs.nondimensionalize(tref_si * u.degK)))
+  fA, fB = mk(specsA, coordsA), mk(specsB, coordsB)
+  ctx.encoded(hs.HeldSuarezForcing.__init__, hs.HeldSuarezForcing.explicit_terms, hs.HeldSuarezForcing.equilibrium_temperature, hs.HeldSuarezForcing.kv, hs.HeldSuarezForcing.kt)
+  sp = Space(bits=10)
+  sp.normalise_atoms = True
+  LA, TA, MA, HA = base_si(sA)
+  rate_box = 2e-5 * TA; temp_box = 10.0 / HA
+  ms = coordsA.modal_shape; ss = coordsA.surface_modal_shape
+  b_ = np.broadcast_to
+  xs = [PolyArr.variables(sp, 'vor', ms, -rate_box, rate_box, free=b_(zm, ms)), PolyArr.variables(sp, 'div', ms, -rate_box, rate_box, free=b_(zm, ms)),
+        PolyArr.variables(sp, 'T', ms, -temp_box, temp_box, free=b_(base, ms)),
+        PolyArr.variables(sp, 'lsp', ss, -0.05, 0.05, free=b_(base & (grid.modal_mesh[1] >= 1), ss))]
+  lsp0_A = float(np.log(specsA.nondimensionalize(1e5 * u.pascal))) * SQRT4PI
+  r = f['rate']
+
+  def both(v, d, t, p):
+    p = p.at[0, 0, 0].add(lsp0_A)
+    a = fA.explicit_terms(pe.State(v, d, t, p))
+    b = fB.explicit_terms(pe.State(v * r, d * r, t * f['temperature'], p.at[0, 0, 0].add(f['log_pressure_shift'] * SQRT4PI)))
+    return ((b.vorticity, b.divergence, b.temperature_variation, b.log_surface_pressure),
+            (a.vorticity * r * r, a.divergence * r * r, a.temperature_variation * f['temperature'] * r, a.log_surface_pressure * r))
+  prove_close(ctx, 'held_suarez.tendencies_equal_in_SI', both, xs, sp, config=dict(grid=grids.cfg_name(cfg), levels=lname, scale_a=sa, scale_b=sb, atoms='normalised by exp/log/pow/relu laws'),
+              validate=True)
+
+
 def task_sw(ctx, cfg, sa, sb, seed):
   from dinosaur import shallow_water as sw, scales, coordinate_systems as cs, layer_coordinates as lc
   u = scales.units
@@ -182,6 +226,8 @@ def make_tasks(tier, seed):
   add(cfgf, 'dy2', 'dry', 'atmospheric', 'seeded')
   add(cfg, 'dy2', 'moist', 'default', 'odd')
   add(cfg, 'dy2', 'moist', 'si', 'seeded')
+  tasks.append(dict(name='held-suarez-default-odd', fn='task_held_suarez', kw=dict(cfg=cfg, levels=LS['dy3'].tolist(), lname='dy3', sa='default', sb='odd', seed=seed)))
+  tasks.append(dict(name='held-suarez-si-seeded', fn='task_held_suarez', kw=dict(cfg=cfg, levels=LS['dy2'].tolist(), lname='dy2', sa='si', sb='seeded', seed=seed)))
   for sa, sb in (('default', 'odd'), ('si', 'seeded')):
     tasks.append(dict(name=f'sw-{sa}-{sb}', fn='task_sw', kw=dict(cfg=cfg, sa=sa, sb=sb, seed=seed)))
   if tier != 'quick':
@@ -201,9 +247,10 @@ def main(tier='quick', seed=0, jobs=None, only=None, t0=None):
       PID, tier, seed, results, t0,
       explanation='The same SI problem (constants, radius, orography, reference temperatures, state, time step) is built under two Scale objects '
                   'through from_si; the state is symbolic; tendencies / one Euler-pair step of the two runs, converted with hand-computed '
-                  'conversion factors, are equal as polynomials in the state coefficients (QF_LRA monomial abstraction).',
+                  'conversion factors, are equal as polynomials in the state coefficients (QF_LRA monomial abstraction); Held-Suarez forcing with exp/log/pow/max '
+                  'as atoms normalised by their elementary laws.',
       bounds=dict(tasks=[t['name'] for t in tasks], state_box='vorticity/divergence |.|<=2e-5/s, T\' <= 10 K, ln ps perturbation <= 0.05, humidity 5e-3',
                   eps='1e-9 x coefficient mass of the compared leaf'),
       assumptions=['real-arithmetic semantics of the float64 IR'],
       trusted=['JAX tracing', 'dverif interpreter', 'z3/cvc5'],
-      outside=['Held-Suarez forcing under two scales (needs exp/log/pow atom laws; pending)', 'float rounding'])
+      outside=['radiation under two scales', 'float rounding'])
